@@ -528,3 +528,20 @@ Proof.
   intros (H1 & H2 & H3 & H4 & H5 & H6 & H7). unfold CC, bnd, g0. cbn [gA gD].
   rewrite H1, H2, H3, H5, H6, H7. unfold InitialCwnd, maxInt, minRTO. cbn. lia.
 Qed.
+
+(* reno_cwnd_bound, for every history of a freshly established sender *)
+Lemma reno_cwnd_bound t es :
+  fresh_sender (SN t) ->
+  let r := grun t g0 es in
+  let s := SN (fst r) in
+  let B := InitialCwnd + gA (snd r) + gD (snd r) in
+  1 <= cwnd s <= B /\ 2 <= ssthresh s /\ 0 <= outstanding s <= B /\ minRTO <= rto s.
+Proof.
+  intros F. cbv zeta. pose proof (CC_run es t g0 (fresh_CC _ F)) as H. unfold CC, bnd in H. lia.
+Qed.
+
+(* rto_floor: the retransmission time-out never goes below 200 ms *)
+Lemma rto_floor t g es : CC (SN t) (bnd g) -> minRTO <= rto (SN (run t es)).
+Proof.
+  intros H. pose proof (CC_run es t g H) as R. rewrite grun_run in R. unfold CC in R. lia.
+Qed.
